@@ -173,7 +173,7 @@ def check_case(case, rec=None):
     return None
 
 
-N = {"quick": 450, "thorough": 10000}
+N = {"quick": 900, "thorough": 10000}
 
 
 def shard_plan(tier):
